@@ -1,24 +1,14 @@
 #!/bin/bash
 # tools/against.sh <mq-source-dir> <Cxx> [quick|thorough] [flags]
 # Runs a check against an ALTERNATE copy of gregoryv/mq (a scratch worktree with a
-# deliberate breaking change, or the original commit). Used for sensitivity
-# experiments only; never registered in MANIFEST.json. Evidence and replays go to
-# a scratch directory so that /verif's committed evidence is not overwritten.
+# deliberate breaking change, or the original commit). Sensitivity experiments
+# only; never registered in MANIFEST.json. Evidence and replays go to a scratch
+# directory so that /verif's committed evidence is not overwritten.
 set -u
 SRC="$(cd "${1:?mq source dir}" && pwd)"; shift
-ID="${1:?property id}"; shift
-TIER="${1:-quick}"; [ $# -gt 0 ] && shift
-cd "$(dirname "$0")/.." || exit 2
-export GOFLAGS=-mod=mod GOPROXY=off GOSUMDB=off GOTOOLCHAIN=local CGO_ENABLED=${CGO_ENABLED:-0}
 OUT="${AGAINST_OUT:-/root/scratch/against-$$}"
-mkdir -p "$OUT/evidence" "$OUT/replays"
-sed "s#=> /repo#=> $SRC#" go.mod > "$OUT/go.mod"; cp go.sum "$OUT/go.sum"
-[ -f known_findings.json ] && cp known_findings.json "$OUT/"
-ulimit -v 33554432 2>/dev/null
-if ! go build -modfile="$OUT/go.mod" -tags verif -o "$OUT/check" ./cmd/check 2> "$OUT/build.err"; then
-  echo "BUILD FAILED against $SRC"; cat "$OUT/build.err"; rm -rf "$OUT"; exit 2
-fi
-VERIF_REPO="$SRC" "$OUT/check" "$ID" -tier "$TIER" -dir "$OUT" "$@"
+mkdir -p "$OUT"
+VERIF_REPO="$SRC" VERIF_OUT="$OUT" "$(dirname "$0")/../run.sh" "$@"
 rc=$?
 [ -z "${AGAINST_KEEP:-}" ] && rm -rf "$OUT"
 exit $rc
